@@ -3,6 +3,7 @@
 (* then one or two real calls of add_implicit_hydrogens with the molecule and  *)
 (* the measured placement of every atom that appeared) must be a behaviour of  *)
 (* HAdd with Deviations = {}.  Many traces per TLC run (DESIGN 2.2).           *)
+(*   share: sub (atom indices handed to another container), kind, keep, out                             *)
 (*   query: i, nb (neighbour indices as connected_atoms yields them), n, bv2 (twice the bonded valence)  *)
 (*   mol  : (a second `mol` event = the molecule after edits through other public calls)                *)
 (*   mol  : atoms [el, fc, sp, ty, lbl, iso, pos <<x,y,z>> uA, q 1e-3 e], hints, off (mA), bonds [a, b, bt] *)
@@ -24,15 +25,16 @@ ToSet(s) == {s[k] : k \in DOMAIN s}
 TQuery == /\ Ev.ev = "query" /\ Ev.out = "ok"
           /\ Query(Ev.i)
           /\ ToSet(Ev.nb) = last'.nb /\ Len(Ev.nb) = last'.n /\ Ev.n = last'.n /\ Ev.bv2 = last'.bv2
+TShare == /\ Ev.ev = "share" /\ Ev.out = "ok" /\ Share(ToSet(Ev.sub), Ev.kind, Ev.keep)
 TAddH == /\ Ev.ev = "addh" /\ Ev.out = "ok" /\ Ev.aligned
          /\ AddH(Ev.newh)                                  \* count rule, one bond each, placement: decided by HAdd
          /\ atoms' = Ev.atoms /\ bonds' = Ev.bonds         \* and everything else exactly as it was
 
 Step == /\ ti <= NT /\ l <= Len(Tr)
-        /\ (TMol \/ TQuery \/ TAddH)
+        /\ (TMol \/ TQuery \/ TShare \/ TAddH)
         /\ l' = l + 1 /\ ti' = ti
 
-Reset == /\ atoms' = <<>> /\ hints' = <<>> /\ off' = <<>> /\ bonds' = <<>> /\ phase' = "empty" /\ seen' = FALSE /\ memo' = <<>>
+Reset == /\ atoms' = <<>> /\ hints' = <<>> /\ off' = <<>> /\ bonds' = <<>> /\ phase' = "empty" /\ seen' = FALSE /\ memo' = <<>> /\ shared' = FALSE
          /\ last' = [act |-> "init"]
 NextTrace == ti' = ti + 1 /\ l' = 1 /\ Reset
 Finish == /\ ti <= NT /\ l = Len(Tr) + 1
